@@ -77,6 +77,29 @@ func ruleQueryEdits(c *Ctx) {
 	// the values added are the location's configured ones
 	src := false
 	c.P.Simulate(fn, SimConfig{MaxVisits: 2}, func(pr *PathResult) {
+		// every way through writes the query back, and what it writes is the client's query plus the additions
+		if pr.Exit == "return" {
+			var wb *Event
+			for _, e := range pr.Events {
+				if e.Kind == "store" && e.Addr != nil && e.Addr.Op == "fa" && e.Addr.Name == "RawQuery" {
+					wb = e
+				}
+			}
+			if wb == nil {
+				bad = append(bad, "returns without writing the query back: the configured parameters are not added for this request (path ["+condString(pr.Conds)+"])")
+			} else {
+				fromClient := wb.Val.contains(func(x *Term) bool {
+					if x.Op != "call" || x.Fn == nil {
+						return false
+					}
+					fn := x.Fn.String()
+					return fn == "(*net/url.URL).Query" || fn == "net/url.ParseQuery"
+				})
+				if !fromClient {
+					bad = append(bad, "the query written back ("+prettyTerm(wb.Val)+") is not built on the client's own query: its parameters are dropped (path ["+condString(pr.Conds)+"])")
+				}
+			}
+		}
 		for _, e := range pr.Events {
 			// calls made through a method value (query.Add handed to a helper) show up here only
 			if e.Kind == "call" && e.Callee != nil && strings.HasPrefix(e.Callee.String(), "(net/url.Values).") {
